@@ -5,11 +5,11 @@
 d=$1; shift
 props="$@"
 [ -z "$props" ] && props=$(python3 -c "import json;print(json.load(open('$d/meta.json'))['property'])")
-WT=/tmp/wt-seed
+WT=${SEEDWT:-/tmp/wt-seed}
 [ -d $WT ] || git -C /repo worktree add -q --detach $WT HEAD
 git -C $WT checkout -q --detach $(git -C /repo rev-parse HEAD) && git -C $WT checkout -q -- . && git -C $WT clean -fdq
 git -C $WT apply "$d/patch.diff" || { echo "patch does not apply"; exit 2; }
 for p in $props; do
-  (cd /verif && VERIF_REPO=$WT VERIF_OUTDIR=/var/tmp/seedout VERIF_WORKERS=${WORKERS:-8} VERIF_BUDGET_S=${BUDGET:-30} ./bin/check $p quick 2>&1 | grep -E "^(VIOLATION|KNOWN|violation|C[0-9]+ quick|check:)" | cut -c1-300 | head -6; echo "exit=${PIPESTATUS[0]}")
+  (cd /verif && VERIF_REPO=$WT VERIF_OUTDIR=${SEEDOUT:-/var/tmp/seedout} VERIF_WORKERS=${WORKERS:-8} VERIF_BUDGET_S=${BUDGET:-30} ./bin/check $p quick 2>&1 | grep -E "^(VIOLATION|KNOWN|violation|C[0-9]+ quick|check:)" | cut -c1-300 | head -6; echo "exit=${PIPESTATUS[0]}")
 done
 git -C $WT checkout -q -- . && git -C $WT clean -fdq
